@@ -165,15 +165,21 @@ def r2_manifest_after_commit(P, rep, ctx, rule="C11.R2"):
     d0 = local_defs(fi)
 
     def is_manifest_obj(e) -> bool:
-        if norm(e) in ("self.manifest", "self._manifest"):
+        if isinstance(e, str):
+            e = MM.pat(e)
+        if norm(e) in ("self.manifest", "self._manifest", "self._fresh_manifest()"):
             return True
         return isinstance(e, ast.Name) and any(v is not None and MM.match("self._fresh_manifest()", v) is not None for k, v in d0.get(e.id, []))
 
-    mfsave = sorted({i for i, c, b in all_saves if is_manifest_obj(b["__o"])})
+    # writes of the manifest object: mf.save(path), or the same done in place (open(path, 'wb') + write(bytes(mf)))
+    from .sem import object_writes
+
+    mwrites = [(i, p_, o, k, c) for i, p_, o, k, c in object_writes(f) if is_manifest_obj(o) or (k == "save" and is_manifest_obj(c.func.value))]
+    mfsave = sorted({i for i, p_, o, k, c in mwrites})
     _order(rep, g, fi, rule, sup, mfsave, "the container commit (super().commit_patch)", "writing the manifest file")
     # the only manifest file a commit writes is the sidecar of the container it just committed (never a path remembered
     # from opening: that one may be the sidecar of an older, committed patch)
-    paths = sorted({f.x_at(i, c.args[0]) if c.args else "?" for i, c, b in all_saves if is_manifest_obj(b["__o"])})
+    paths = sorted({f.x_at(i, p_) for i, p_, o, k, c in mwrites})
     rep.check(paths == ["self._manifest_filepath(self._files[-1].filename)"], rule, fi.qual, "the manifest is written next to the newest container only", fi.loc(), construct="manifest save target",
               message=f"commit_patch writes the manifest to {paths}: a manifest file belonging to an already committed container can be overwritten")
     # and not reachable through the exception edge of the commit: manifest write must not be inside the try protecting the commit
